@@ -17,6 +17,7 @@ import re
 from typing import Any, Dict, List, Optional, Tuple
 
 from mc import refvm, simctl, world
+from mc.report import guard_harness as _guard
 from mc.report import add_sample, add_violation, count, new_part
 
 LEVEL = "model_checking"
@@ -112,6 +113,7 @@ def run_real(ex, prog, trace: Optional[list] = None):
     except simctl.Horizon:
         return ("horizon",)
     except Exception as exc:
+        _guard(exc)
         m = re.match(r"At line (\d+):", str(exc))
         return ("fault", int(m.group(1)) if m else None, f"{type(exc).__name__}: {str(exc).splitlines()[0][:160]}")
     finally:
